@@ -27,6 +27,7 @@ CLS_OTHER = 24
 NAV_REMOVED = ("Repeat", "Ending", "ToCoda", "DaCapo", "DalSegno", "Segment")
 REF_ATTRS = ["tie_prev", "tie_next", "slur_stops", "slur_starts", "tuplet_stops", "tuplet_starts",
              "grace_next", "grace_prev", "start_note", "end_note"]
+SINGLE_ATTRS = (0, 1, 6, 7, 8, 9)   # indices into REF_ATTRS of single-valued references (None when the target is not copied)
 STEPS = ["C", "D", "E", "F", "G", "A", "B"]
 MAXPATH = 60          # paths longer than this are treated as "does not terminate" on both sides
 MAXPATHS = 400        # more complete paths than this: case dropped (counted)
@@ -496,8 +497,8 @@ def oracle_variant(r, label, path, upd, u):
                 trow = orig[t]
                 if (t, k) in copied and s <= trow[2] < e:
                     w.append((t, trow[2] - s + off))
-                else:
-                    w.append(None)
+                elif ai not in SINGLE_ATTRS:
+                    w.append(None)      # list-valued attribute: the slot stays, holding None
             want.append((ai, w))
         if want != [(a, list(x)) for a, x in row[6]]:
             bad.append(("refs", "references of the copy of object %d (%s) at t=%d are %r, expected %r (targets as (object, start))"
@@ -548,7 +549,14 @@ def structure_kind(spec):
     if not ends:
         ok = all(a < b for a, b in reps) and all(reps[i][1] <= reps[i + 1][0] for i in range(len(reps) - 1))
         return "simple" if ok else "other"
-    return "volta" if spec.get("volta_groups") else "other"
+    groups = spec.get("volta_groups")
+    if not groups:
+        return "other"
+    # spans: each volta group from its body start to the end of its last ending, each other repeat; all disjoint
+    vstarts = {g[0]: g[1][-1][1] for g in groups}
+    spans = sorted([(a, b) for a, b in vstarts.items()] + [(a, b) for a, b in reps if a not in vstarts])
+    ok = all(spans[i][1] <= spans[i + 1][0] for i in range(len(spans) - 1))
+    return "volta" if ok else "other"
 
 
 def reference_unfolding(spec, maximal):
@@ -972,3 +980,238 @@ def c_case(r, variants):
     return "(mkC %s %s %s %s %s)" % (
         c_marks(r.marks), clist([c_obj(o) for o in r.objs]), clist([c_seg(s) for s in r.segs]),
         clist([c_paths(pol, r.paths[pol]) for pol in POLICIES]), clist(vs))
+
+
+# ----------------------------------------------------------------------------
+# the check
+
+
+class _Timeout(Exception):
+    pass
+
+
+def with_alarm(seconds, f):
+    import signal
+
+    def h(sig, frm):
+        raise _Timeout()
+    old = signal.signal(signal.SIGALRM, h)
+    signal.setitimer(signal.ITIMER_REAL, seconds)
+    try:
+        return f()
+    finally:
+        signal.setitimer(signal.ITIMER_REAL, 0)
+        signal.signal(signal.SIGALRM, old)
+
+
+def examine(spec, rng=None):
+    """Run the implementation and the direct oracle on a spec.  Returns (run | None, bad list, skip reason)."""
+    try:
+        r = with_alarm(20, lambda: run_impl(spec, rng=rng))
+    except _Timeout:
+        return None, [], "timeout"
+    for pol in POLICIES:
+        ps = r.paths[pol]
+        if ps is not None and (len(ps) > MAXPATHS or any(len(p) >= MAXPATH for p in ps)):
+            return r, oracle(r), "too_long"
+    return r, oracle(r), None
+
+
+def shrink(spec, kind):
+    """ddmin over the decorations of a failing spec (structure kept), keeping the same failure kind."""
+    def fails(s):
+        try:
+            r, bad, skip = examine(s)
+        except Exception:
+            return False
+        return any(b[0] == kind for b in bad)
+
+    s = dict(spec)
+    for key in ("slurs", "tuplets", "ties", "graces", "fermatas", "words", "pages", "barlines", "qdchanges"):
+        if s.get(key):
+            t = dict(s)
+            t[key] = []
+            if key == "graces":
+                t["notes"] = [n for n in t["notes"] if n[1] != "grace"]
+            if fails(t):
+                s = t
+            elif len(s[key]) > 1:
+                keep = core.ddmin(s[key], lambda sub: fails(dict(s, **{key: sub})))
+                s = dict(s, **{key: keep})
+    for key in ("ts", "ks", "clefs"):
+        if len(s.get(key, [])) > 1:
+            t = dict(s, **{key: s[key][:1]})
+            if fails(t):
+                s = t
+    return s
+
+
+def classify(spec):
+    feats = []
+    if spec.get("slurs"):
+        feats.append("slur")
+    if spec.get("ties"):
+        feats.append("tie")
+    if spec.get("tuplets"):
+        feats.append("tuplet")
+    if spec.get("graces"):
+        feats.append("grace")
+    if len(spec.get("ts", [])) > 1 or spec.get("qdchanges"):
+        feats.append("sigchange")
+    return feats
+
+
+def object_crosses_final_end(replay_obj):
+    """Known finding C09-K1: a timed object (slur) that starts in the last visited segment and ends after
+    that segment's end, while the path ends before the temporal end of the part or the following copy is
+    shorter -- its copy's end lies beyond the sum of the visited segments' lengths."""
+    try:
+        if replay_obj.get("kind") != "length":
+            return False
+        spec = replay_obj["spec"]
+        r = run_impl(spec)
+        path = replay_obj["path"]
+        vis, total = visits_of(r, path)
+        s, e, off = vis[-1]
+        for row in r.objs:
+            if s <= row[2] < e and row[3] is not None and row[3] > e and row[1] not in (10, 11, 15):
+                return True
+        # an earlier visit whose crossing object reaches beyond the total
+        for (s, e, off) in vis:
+            for row in r.objs:
+                if s <= row[2] < e and row[3] is not None and row[3] - s + off > total and row[1] not in (10, 11, 15):
+                    return True
+        return False
+    except Exception:
+        return False
+
+
+def run(ctx):
+    warnings.filterwarnings("ignore")
+    ctx.rule = ("cases = measure-aligned parts built through the public API from a structured generator (weights: no "
+                "structure 6, independent simple repeats 30, repeats with 2-3 endings incl. comma numbers 22, nested "
+                "repeats 12, D.C./D.S. with Fine or To Coda/Coda plus repeats 30; decorations: ties over bar lines, "
+                "slurs over up to 5 notes, tuplets, grace chains, restated/changed time and key signatures, clefs, "
+                "division changes, fermatas, pages/systems); thorough adds every structure over 5 measures with <= 2 "
+                "repeats / one volta group x D.C./D.S./Fine/Coda arrangements having <= 5 segments.  Distinct "
+                "non-trivial = distinct (marks, notes) whose segment table has a segment with >= 2 destinations.")
+    ctx.trusted = ["Coq 8.16.1 kernel incl. vm_compute",
+                   "harness/props/c09.py: abstraction of a Part (marks in iter_all order, object dump in time-point/"
+                   "starting_objects order, canonical dump of unfolded parts) and the Python oracle",
+                   "determinism of partitura's unfolding for a given Part"]
+    ctx.assumptions = ["segment ids are single characters chr(65+i) (fewer than 60 segments); ending numbers 1..9",
+                       "paths of 60 or more segments / more than 400 paths / get_paths running > 20 s are counted and "
+                       "not compared (model fuel 64)",
+                       "Clef copies are not compared with the model (the rule compares a clef with the previous clef "
+                       "of any staff; the property does not name clefs)",
+                       "original note ids are distinct"]
+    ctx.matchers["C09-K1"] = object_crosses_final_end
+    ok, why = ctx.coq_props(expect_min=1)
+    rng = ctx.rng
+    quick = ctx.tier == "quick"
+    n_random = 160 if quick else 2400
+    specs = []
+    import os
+    cdir = os.path.join(core.VERIF, "corpus", "C09")
+    if os.path.isdir(cdir):
+        for fn in sorted(os.listdir(cdir)):
+            if fn.endswith(".json"):
+                with open(os.path.join(cdir, fn)) as f:
+                    specs.append(("corpus", json.load(f)))
+    for i in range(n_random):
+        specs.append(("random", gen_spec(rng)))
+    if not quick:
+        for s in small_scope_specs():
+            specs.append(("small", s))
+    terms, kept = [], []
+    nviol = 0
+    for origin, spec in specs:
+        sub = __import__("random").Random(rng.getrandbits(32))
+        try:
+            r, bad, skip = examine(spec, rng=sub)
+        except Exception as e:  # building the part failed: harness problem, report loudly
+            ctx.violation("harness could not build/run spec: %r" % (e,), {"spec": spec, "kind": "harness"}, no_input=True)
+            continue
+        if skip == "timeout":
+            ctx.count("skipped:timeout")
+            continue
+        if origin == "small" and len(r.segs) > 5:
+            ctx.count("small:more_than_5_segments")
+            continue
+        ctx.evaluations += 1
+        ctx.count("kind:" + spec.get("kind", "?"))
+        for f in classify(spec):
+            ctx.count("feature:" + f)
+        ctx.count("variants", len(r.variants))
+        if any(len(s[3]) + len(s[4]) >= 2 for s in r.segs):
+            ctx.nontrivial(json.dumps([r.marks, spec.get("notes")], sort_keys=True))
+        if any(v is None for v in r.paths.values()):
+            ctx.count("outcome:get_paths_raises")
+        if bad and nviol < 6:
+            seen_kinds = set()
+            for kind, msg, extra in bad:
+                if kind in seen_kinds:
+                    continue
+                seen_kinds.add(kind)
+                small = shrink(spec, kind) if origin != "small" else spec
+                obj = {"spec": small, "kind": kind, "message": msg}
+                obj.update(extra)
+                res = ctx.violation("C09 %s: %s" % (kind, msg), obj)
+                if res != "known":
+                    nviol += 1
+        if skip == "too_long":
+            ctx.count("skipped:too_long_for_model")
+            continue
+        # variants sent to the model: maximal (both update_ids), minimal, up to 2 of iter_unfolded_parts
+        vs = [v for v in r.variants if not v[0].startswith("iter_")][:3]
+        its = [v for v in r.variants if v[0].startswith("iter_")]
+        if its:
+            vs += sub.sample(its, min(2 if origin != "small" else 1, len(its)))
+        ctx.sample({"spec": spec, "segments": r.segs, "paths_all": r.paths[POLICIES[0]]}, limit=3)
+        terms.append(c_case(r, vs))
+        kept.append(spec)
+    ctx.log("implementation + oracle done on %d cases; evaluating the model on %d" % (ctx.evaluations, len(terms)))
+    if ok:
+        try:
+            codes = ctx.coq_failing("corr", "From PV Require Import Model.C09.", "", terms,
+                                    "fun c => Z.eqb (check_case c) 0", shard=25 if quick else 60, timeout=1500)
+            failing = codes
+        except RuntimeError as e:
+            failing = None
+            ctx.obligation("correspondence: model evaluation", False, str(e)[-1500:])
+            ctx.violation("Coq could not evaluate the C09 model on the generated cases: " + str(e)[-800:],
+                          {"kind": "harness"}, no_input=True)
+        if failing is not None:
+            ctx.obligation("correspondence: make_segments = part.segments, get_paths = Path.path lists (3 policies x "
+                           "ignore_leaps), variant rows = dump of unfolded parts on %d cases" % len(terms),
+                           not failing, failing[:5])
+            for i in failing[:4]:
+                which = ctx.coq_eval("From PV Require Import Model.C09.", "check_case %s" % terms[i])
+                ctx.violation("model and implementation disagree (check_case: 1 segments, 2 paths, 3 variant): %s"
+                              % which[-200:], {"spec": kept[i], "kind": "correspondence"})
+    else:
+        ctx.violation("proof obligations of Props/C09.v no longer check: " + why, {"theorem_or_build": why}, no_input=True)
+    ctx.extra["exhaustive"] = not quick
+    ctx.extra["exhaustive_note"] = ("thorough: all structures over 5 measures with <= 2 repeats or one two-ending volta "
+                                    "group x navigation arrangements, restricted to <= 5 segments" if not quick else "sampled")
+
+
+def replay(obj):
+    warnings.filterwarnings("ignore")
+    core.setup_import_path()
+    rp = obj.get("replay", obj)
+    spec = rp.get("spec")
+    print(json.dumps(obj, indent=1, default=str)[:3000])
+    if not spec:
+        return 0
+    r, bad, skip = examine(spec)
+    print("segments (id, start, end, to, await_to, type):")
+    for s in r.segs:
+        print("  ", s)
+    for pol in POLICIES:
+        print("paths no_repeats=%s all_repeats=%s ignore_leap_info=%s:" % pol,
+              None if r.paths[pol] is None else ["-".join(chr(65 + i) for i in p) for p in r.paths[pol]], r.errors.get(pol, ""))
+    print("oracle findings on the implementation (%d):" % len(bad))
+    for b in bad:
+        print("  ", b[0], "|", b[1])
+    return 0
